@@ -124,6 +124,17 @@ def gen_load_op(rng: Rng, world: Dict[str, Any]) -> Dict[str, Any]:
     elif world["knobs"].get("fractional") and rng.chance(0.15):
         # the variable is present but does not say "1" (blank line in an env file, explicit "off"): rounding stays on
         op["environ"] = {"HTA_DISABLE_NS_ROUNDING": rng.choice(["", "0", "false", "off", "no"])}
+    fr = rng.fork("first_single")
+    if op["mode"] in ("parse", "full") and "max_ranks" not in op and len(files) > 1 and fr.chance(0.25):
+        # the public per-rank entry point is used first on the same object (a look at one rank), then everything is
+        # parsed: the symbol table is not empty when the multi-rank call starts
+        avail = [f["rank"] for f in files] if op["via"] == "dir" else (
+            [int(r) for r in op["files"]] if op["via"] == "dict" else
+            [f["rank"] for f in files if f["name"] in op["files"]])
+        avail = sorted(set(avail))
+        if len(avail) > 1:
+            pick = fr.sample(avail[1:], fr.randint(1, min(2, len(avail) - 1))) if fr.chance(0.8) else [avail[0]]
+            op["first_single"] = pick
     if op["mode"] == "single":
         ranks = [f["rank"] for f in files] if op["via"] == "dir" else (
             [int(r) for r in op["files"]] if op["via"] == "dict" else
